@@ -316,6 +316,7 @@ theorem cropSourceWindow_spec (text0 : List Char) (loc : Snippet.Loc) (m : Mappi
       (out = [] ∨
        ∃ rel ws we, relativeRow m loc.line = some rel ∧ 1 ≤ ws ∧ ws ≤ rel ∧ rel ≤ we ∧
           we ≤ (stripBom text0).count '\n' + 1 ∧ we - ws ≤ 2 * ctxLines ∧ sl = absoluteRow m ws ∧
+          we = min (satAdd rel ctxLines) ((stripBom text0).count '\n' + 1) ∧
           (out = takeRows (we - (ws - 1)) (dropRows (ws - 1) (stripBom text0)) ∨
            (out.count '\n' = (takeRows (we - (ws - 1)) (dropRows (ws - 1) (stripBom text0))).count '\n' ∧
             ((takeRows (we - (ws - 1)) (dropRows (ws - 1) (stripBom text0))).getLast? = some '\n' →
@@ -344,8 +345,10 @@ theorem cropSourceWindow_spec (text0 : List Char) (loc : Snippet.Loc) (m : Mappi
             have := stripBom_length_le text0
             omega
           obtain ⟨f1, f2, f3, f4, f5⟩ := windowRows_facts rel ((stripBom text0).count '\n' + 1) (by omega) (by omega) hrel_le
+          have f6 : (windowRows rel ((stripBom text0).count '\n' + 1)).2 =
+              min (satAdd rel ctxLines) ((stripBom text0).count '\n' + 1) := rfl
           generalize hws : (windowRows rel ((stripBom text0).count '\n' + 1)).1 = ws at f1 f2 f3 f4 f5
-          generalize hwe : (windowRows rel ((stripBom text0).count '\n' + 1)).2 = we at f1 f2 f3 f4 f5
+          generalize hwe : (windowRows rel ((stripBom text0).count '\n' + 1)).2 = we at f1 f2 f3 f4 f5 f6
           have hpair : windowRows rel ((stripBom text0).count '\n' + 1) = (ws, we) := by
             rw [← hws, ← hwe]
           obtain ⟨hwb, hsl⟩ := window_slice (stripBom text0) hne ws we f1 (by omega) f4 "crop_source_window"
@@ -371,13 +374,14 @@ theorem cropSourceWindow_spec (text0 : List Char) (loc : Snippet.Loc) (m : Mappi
                 (w.getLast? = some '\n' → out.getLast? = some '\n') ∧ clean out = true)) →
               (out = [] ∨ ∃ rel' ws' we', some rel = some rel' ∧ 1 ≤ ws' ∧ ws' ≤ rel' ∧ rel' ≤ we' ∧
                 we' ≤ (stripBom text0).count '\n' + 1 ∧ we' - ws' ≤ 2 * ctxLines ∧ absoluteRow m ws = absoluteRow m ws' ∧
+                we' = min (satAdd rel' ctxLines) ((stripBom text0).count '\n' + 1) ∧
                 (out = takeRows (we' - (ws' - 1)) (dropRows (ws' - 1) (stripBom text0)) ∨
                  (out.count '\n' = (takeRows (we' - (ws' - 1)) (dropRows (ws' - 1) (stripBom text0))).count '\n' ∧
                   ((takeRows (we' - (ws' - 1)) (dropRows (ws' - 1) (stripBom text0))).getLast? = some '\n' →
                       out.getLast? = some '\n') ∧ clean out = true))) := by
             intro out ho
             right
-            exact ⟨rel, ws, we, rfl, f1, f2, f3, f4, f5, rfl, by rw [hw]; exact ho⟩
+            exact ⟨rel, ws, we, rfl, f1, f2, f3, f4, f5, rfl, f6, by rw [hw]; exact ho⟩
           by_cases hr0 : r = 0
           · rw [if_pos hr0]
             exact ⟨w, _, rfl, hcommon w (.inl rfl)⟩
@@ -394,5 +398,27 @@ theorem cropSourceWindow_spec (text0 : List Char) (loc : Snippet.Loc) (m : Mappi
                 apply sanitize_getLast_nl
                 apply hlast _ hl
                 intro hnil; rw [hnil] at hl; cases hl
+
+theorem stripBom_count_nl (t : List Char) : (stripBom t).count '\n' = t.count '\n' := by
+  cases t with
+  | nil => rfl
+  | cons c cs =>
+    rw [stripBom_cons]
+    by_cases h : c.toNat = 0xFEFF
+    · rw [if_pos h, count_nl_cons, if_neg (by intro hc; rw [hc] at h; revert h; decide)]; rfl
+    · rw [if_neg h]
+
+/-- `line_count_including_trailing_empty_line` of a non-empty text is its number of line breaks + 1 -/
+theorem lineCount_eq (t : List Char) (h : t ≠ []) : lineCount t = t.count '\n' + 1 := by
+  unfold lineCount
+  simp only []
+  have he : t.isEmpty = false := by cases t <;> simp_all
+  rw [he]
+  simp only [Bool.false_eq_true, if_false]
+  by_cases hl : t.getLast? = some '\n'
+  · rw [if_pos hl, if_pos hl]
+    have : 1 ≤ t.count '\n' := List.count_pos_iff.mpr (List.mem_of_getLast? hl)
+    omega
+  · rw [if_neg hl, if_neg hl]; omega
 
 end SaphyrVerif.Lemmas.C17
